@@ -2,7 +2,7 @@
    Statements over the store machine Store/Model.v, for EVERY schema that passes the boolean
    well-formedness check, every fuel and every history of transactions. *)
 From Coq Require Import List NArith Bool.
-From Storage Require Import Base.Bytes Store.Model Store.UniqueProofs Store.WfSchema Store.SetIdxProofs Store.WfSetIdx Store.UniqueRejectProofs.
+From Storage Require Import Base.Bytes Store.Model Store.UniqueProofs Store.WfSchema Store.SetIdxProofs Store.WfSetIdx Store.UniqueRejectProofs Store.UniqueOnlyIfProofs.
 Import ListNotations.
 
 (* After any history of committed / rolled-back transactions (creates, full and field-restricted
@@ -185,3 +185,46 @@ Proof.
   exact (nonnull_unique_never_empty_lemma sch s f H1 H2 H3 H4 H5 Hnn fuel txs).
 Qed.
 Print Assumptions nonnull_unique_never_empty.
+
+(* ---------------------------------------------------------------- ... and only then *)
+(* The duplicate error is raised ONLY when the operation would give two entities the same unique value.
+   [all_unique_ok sch s st]: every unique index declared on the root store s passes wf_unique_b and mirrors the
+   entities of st (true in every reachable state: all_unique_ok_in_reachable_states below).
+   [update_in sch oc (st, evs) s1 ...] is BaseStore.Update running in store s1 - the root store s itself or the child
+   store the entity was routed to (op_update = update_in on upd_store, UniqueRejectProofs.op_update_eq).
+   If it fails with EDuplicate then EITHER for one of the unique indexes (s, f) another present entity j <> i of the
+   state the update started in holds the non-empty value the update persists in f ([dup_at] of [new_f]: the supplied
+   value when the field checker lets f through, the entity's own old value - which nobody else holds - otherwise),
+   OR s1 is a child store, every hook of the root store succeeded and the error was raised by the constraint list of
+   that child store (a unique index declared on the child store). *)
+Theorem unique_duplicate_only_when_held_update : forall sch s oc st evs s1 i fv sv ch,
+  is_child sch s = false -> all_unique_ok sch s st -> root_of sch s1 = s ->
+  update_in sch oc (st, evs) s1 i fv sv ch = Err EDuplicate ->
+  (exists f nl, In (CUnique f nl) (cons_of sch s) /\
+                dup_at sch s f st i (new_f sch s f false false fv ch (cur_ent s st i)))
+  \/ (is_child sch s1 = true /\ exists svs stA,
+        after_update_all sch (set_ent st s i (persist sch s1 false false fv sv ch (cur_ent s st i)))
+                         (mkIctx false (oc_sys oc) s i) (cons_of sch s) (hd [] svs) = Ok stA /\
+        after_update_all sch stA (mkIctx false (oc_sys oc) s1 i) (cons_of sch s1) (hd [] (tl svs)) = Err EDuplicate).
+Proof. exact update_in_dup_only_if. Qed.
+Print Assumptions unique_duplicate_only_when_held_update.
+
+(* the same for a create through store s1 (root store or child store) *)
+Theorem unique_duplicate_only_when_held_create : forall sch s oc st evs s1 i sys fv sv,
+  is_child sch s = false -> all_unique_ok sch s st -> root_of sch s1 = s ->
+  op_create sch oc (st, evs) s1 i sys fv sv = Err EDuplicate ->
+  (exists f nl, In (CUnique f nl) (cons_of sch s) /\
+                dup_at sch s f st i (new_f sch s f true sys fv None ent_empty))
+  \/ (is_child sch s1 = true /\ exists stA,
+        after_update_all sch (set_ent st s i (persist sch s1 true sys fv sv None ent_empty))
+                         (mkIctx true (oc_sys oc) s i) (cons_of sch s) [] = Ok stA /\
+        after_update_all sch stA (mkIctx true (oc_sys oc) s1 i) (cons_of sch s1) [] = Err EDuplicate).
+Proof. exact op_create_dup_only_if. Qed.
+Print Assumptions unique_duplicate_only_when_held_create.
+
+(* the hypothesis of the two theorems holds in every reachable state *)
+Theorem all_unique_ok_in_reachable_states : forall sch s fuel (txs : list tx),
+  (forall f nl, In (CUnique f nl) (cons_of sch s) -> wf_unique_b sch s f = true) ->
+  all_unique_ok sch s (run_txs sch fuel st_empty txs).
+Proof. exact all_unique_ok_reachable. Qed.
+Print Assumptions all_unique_ok_in_reachable_states.
